@@ -247,6 +247,22 @@ def native_dtype_cases(orders=(2, 4, 6, 8)):
                         if not err <= tol:
                             idx = tuple(int(i) for i in np.unravel_index(int(np.argmax(np.abs(out - ref))), ref.shape))
                             bad.append(f'd3{"xyz"[ax]} (order {p}, {mode}) on a {dt} field differs from the same field in float64 by {err:.3g} at index {idx}')
+        # memory layout of the field: Fortran-ordered (transposed simulation data) and non-contiguous views
+        for p in orders:
+            for mode in MODES:
+                fd = aurel.FiniteDifference(dict(Nx=N, Ny=N + 1, Nz=N + 2, xmin=0., ymin=0., zmin=0., dx=0.5, dy=0.25, dz=1.0), boundary=mode, fd_order=p, verbose=False)
+                f = rng.standard_normal((N, N + 1, N + 2))
+                for what, g in (('Fortran-ordered', np.asfortranarray(f)), ('non-contiguous (strided view)', np.repeat(f, 2, axis=-1)[..., ::2]),
+                                ('read-only', (lambda a: (a.setflags(write=False), a)[1])(f.copy()))):
+                    for ax, op in enumerate((fd.d3x, fd.d3y, fd.d3z)):
+                        n += 1
+                        try:
+                            err = float(np.max(np.abs(np.asarray(op(g), dtype=float) - op(f))))
+                        except Exception as e:
+                            bad.append(f'd3{"xyz"[ax]} (order {p}, {mode}) on a {what} field raises {type(e).__name__}: {e}')
+                            continue
+                        if not err <= 1e-10:
+                            bad.append(f'd3{"xyz"[ax]} (order {p}, {mode}) on a {what} field differs from the same field C-ordered by {err:.3g}')
     return bad, n
 
 
